@@ -40,4 +40,27 @@ def createEnergy (rate : α) (ru : EnergyRateUnit) (distance : α) (du : Distanc
 
 end
 
+/-! ### the rest of `speed_unit.rs` -/
+
+/-- `SpeedUnit::from((distance_unit, time_unit))`: the unit, or the panic of an arm that is `todo!()` -/
+inductive FromPair where
+  | unit (u : SpeedUnit)
+  | panic
+  deriving DecidableEq, Repr, Inhabited
+
+def SpeedUnit.fromPair (d : DistanceUnit) (t : TimeUnit) : FromPair :=
+  match SpeedUnit.ofDistanceTime? d t with
+  | some u => .unit u
+  | none => .panic
+
+/-- `SpeedUnit::from_str` (`string_deserialize`: the text is put between quotes and read as a JSON
+string): a serde name.  A text holding a quote or a control character is not a JSON string; a
+backslash starts an escape sequence, which is not modelled (answered `none`; the harness sends none). -/
+def SpeedUnit.fromStr (s : String) : Option SpeedUnit :=
+  if s.toList.any (fun c => c == '"' || c == '\\' || c.toNat < 32) then none else SpeedUnit.ofName? s
+
+/-- `SpeedUnit::max_american_highway_speed` -/
+def SpeedUnit.maxHighwaySpeed {α : Type} [Lit α] (u : SpeedUnit) : α :=
+  Lit.lit u.maxAmericanHighwaySpeed.1 u.maxAmericanHighwaySpeed.2
+
 end Compass
